@@ -289,3 +289,129 @@ def normalisation_loops(ctx, rule):
         else:
             ctx.fail(rule, key, b.where(), "%s does not insert (from -> to) into self.%s" % (name, mapf),
                      {"witness": "accents are never folded / composition entries are stored reversed"})
+
+
+def reduce_equal_length(ctx, rule):
+    """R15.m: Lang::unicode_reduce returns two arrays of equal length — the padded original and the reduced text.  Loop
+    invariant, checked symbolically: both buffers are cleared before the Normalize loop, and one trip round the loop grows
+    both by the same amount (`extend(x)` adds len(x), a `push` inside an inner `for _ in lo..hi` adds hi-lo, `resize(k, _)`
+    sets the length to k), assuming they were equal at the loop head."""
+    from .. import bounds as B
+    facts = ctx.facts
+    b = None
+    for x in facts.fns():
+        if x.cn.endswith("Lang::unicode_reduce"):
+            b = x
+    if not ctx.require(rule, "Lang::unicode_reduce", b):
+        return
+    sy = ctx.sym(b)
+    cfg = ctx.cfg(b)
+    key = "reduce-equal-length"
+    # the two buffers: the receivers of the clones (or to_vec) that build the returned pair
+    ret = S.strip_refs(sy.local(0))
+    pair = None
+    for x in S.walk(ret):
+        if isinstance(x, tuple) and x and x[0] == "agg" and x[1] == "tuple" and len(x[3]) == 2:
+            srcs = []
+            for comp in x[3]:
+                c = S.strip_refs(comp)
+                if c[0] == "call" and c[1].rsplit("::", 1)[-1] in ("clone", "to_vec", "to_owned") and c[2]:
+                    srcs.append(B.norm_atom(c[2][0]))
+            if len(srcs) == 2:
+                pair = srcs
+    if pair is None or pair[0] == pair[1]:
+        ctx.fail(rule, key, b.where(), "unicode_reduce: the returned pair is not (copy of buffer 1, copy of buffer 2) (fail closed)")
+        return
+    nexts = [bi for bi, t in b.calls() if (t.get("resolved") or "").endswith("Normalize<'a> as std::iter::Iterator>::next")]
+    if not nexts:
+        ctx.fail(rule, key, b.where(), "unicode_reduce: no Normalize loop found (fail closed)")
+        return
+    nbi = nexts[0]
+    hdr = cfg.inner_header(nbi)
+    tg = b.blocks[nbi]["term"].get("target")
+    sw = b.blocks[tg]["term"] if tg is not None else None
+    some_t = [x for v, x in sw["targets"] if v == 1] if sw is not None and sw["k"] == "switch" else []
+    if hdr is None or not some_t:
+        ctx.fail(rule, key, b.where(), "unicode_reduce: shape of the Normalize loop not recognised (fail closed)")
+        return
+    problems = []
+    events = []      # (block, buffer index, kind, term)
+    cleared = {0: False, 1: False}
+    for (bi, t, rk, m) in U.receiver_events(ctx, b):
+        k = B.norm_atom(rk)
+        if k not in pair:
+            continue
+        i = pair.index(k)
+        if m in ("deref", "deref_mut", "len", "as_slice", "clone", "to_vec", "index", "iter", "is_empty", "capacity", "reserve", "eq", "ne"):
+            continue
+        inloop = cfg.in_natural_loop(bi, hdr)
+        if not inloop:
+            if m == "clear" and cfg.dominates(bi, hdr):
+                cleared[i] = True
+            elif cfg.dominates(bi, hdr) or not cfg.path_exists(hdr, bi):
+                problems.append("buffer %d is changed by `%s` before the loop" % (i + 1, m))
+            else:
+                problems.append("buffer %d is changed by `%s` after the loop" % (i + 1, m))
+            continue
+        events.append((bi, i, m, t))
+    if not (cleared[0] and cleared[1]):
+        problems.append("the two buffers are not both cleared before the loop")
+    # order by dominance; every event must lie on every trip round the loop
+    import functools
+
+    def before(x, y):
+        if x[0] == y[0]:
+            return 0
+        return -1 if cfg.dominates(x[0], y[0]) else (1 if cfg.dominates(y[0], x[0]) else 0)
+    events.sort(key=functools.cmp_to_key(before))
+    L = [B.Lin({("L",): 1}), B.Lin({("L",): 1})]
+
+    def cur_len_subst(lin_):
+        # occurrences of len(buffer k) in an argument stand for the current symbolic length
+        out = B.Lin({}, lin_.c)
+        for a, c in lin_.co.items():
+            if isinstance(a, tuple) and a and a[0] == "len" and a[1] in pair:
+                cur = L[pair.index(a[1])]
+                out = out + B.Lin({k_: v_ * c for k_, v_ in cur.co.items()}, cur.c * c)
+            else:
+                out = out + B.Lin({a: c})
+        return out
+    for (bi, i, m, t) in events:
+        ih = cfg.inner_header(bi)
+        args = [sy.operand(a) for a in t["args"]]
+        if ih == hdr:
+            if cfg.path_exists(some_t[0], nbi, avoid=[bi]) and some_t[0] != bi:
+                problems.append("`%s` on buffer %d is skipped on some trip round the loop" % (m, i + 1))
+                continue
+            if m in ("extend", "extend_from_slice") and len(args) > 1:
+                L[i] = L[i] + B.Lin({("len", B.norm_atom(args[1])): 1})
+            elif m == "push":
+                L[i] = L[i].plus(1)
+            elif m == "resize" and len(args) > 1:
+                L[i] = cur_len_subst(B.lin(args[1]))
+            else:
+                problems.append("buffer %d is changed by `%s` inside the loop (not understood)" % (i + 1, m))
+        else:
+            # inside an inner loop: a push repeated (hi - lo) times for `for _ in lo..hi`
+            inner_next = [x for x, t2 in b.calls() if (t2.get("cn") or "").endswith("Iterator::next") and cfg.inner_header(x) == ih]
+            amount = None
+            if m == "push" and inner_next:
+                src, stages = U.chain(sy.operand(b.blocks[inner_next[0]]["term"]["args"][0]))
+                s0 = S.strip_refs(src)
+                if s0[0] == "agg" and s0[2].endswith("Range::Range") and all(s_[0] == "into_iter" for s_ in stages):
+                    amount = B.lin(s0[3][1]) - B.lin(s0[3][0])
+            if amount is None:
+                problems.append("buffer %d is changed by `%s` in a nested loop that is not `for _ in lo..hi { push }`" % (i + 1, m))
+            else:
+                L[i] = L[i] + amount
+    d = L[0] - L[1]
+    if not problems and not d.co and d.c == 0:
+        ctx.ok(rule, key, b.where(), "unicode_reduce keeps its two buffers equally long: cleared before the loop, each trip grows both "
+               "by len(replacement) (%d buffer events)" % len(events), nontrivial=True, kind="S")
+    else:
+        if not problems:
+            problems.append("after one trip the lengths differ by %s" % S.show(tuple(sorted((str(k), v) for k, v in d.co.items())) or d.c)[:120])
+        ctx.fail(rule, key, b.where(), "unicode_reduce does not keep the padded original and the reduced text equally long: %s"
+                 % "; ".join(problems[:3]),
+                 {"witness": "German 'Fuß': original [F,u,ß] (3) against normalised [f,u,s,s] (4): the last word's slice is out of "
+                             "bounds of the original array"}, kind="S")
